@@ -1500,9 +1500,14 @@ func (pool *TxPool) demoteUnexecutables() {
 		if pool.locals.contains(addr) {
 			localGauge.Dec(int64(len(olds) + len(drops) + len(invalids)))
 		}
-		// If there's a gap in front, alert (should never happen) and postpone all transactions
-		if list.Len() > 0 && list.txs.Get(nonce) == nil {
-			gapped := list.Cap(0)
+		// If there's a gap, in front or further up (a reorg can re-inject only some of an
+		// account's transactions below the ones still pending), postpone everything above it
+		executable := 0
+		for list.txs.Get(nonce+uint64(executable)) != nil {
+			executable++
+		}
+		if list.Len() > executable {
+			gapped := list.Cap(executable)
 			for _, tx := range gapped {
 				hash := tx.Hash()
 				log.Error("Demoting invalidated transaction", "hash", hash)
